@@ -26,8 +26,6 @@ package secretstore
 //@ spec func is_dck(b Bytes) Bool
 //@ axiom dck_roundtrip: forall c Bytes, n {enc_dck(c, n)} :: 0 <= n && n < 18446744073709551616 ==> is_dck(enc_dck(c, n)) && dck_ck(enc_dck(c, n)) == c && dck_ctr(enc_dck(c, n)) == n
 //@ axiom dck_ctr_range: forall b Bytes {dck_ctr(b)} :: 0 <= dck_ctr(b) && dck_ctr(b) < 18446744073709551616
-//@ axiom headers_inj: forall c1, d1 Bytes, s1 Bytes, c2, d2 Bytes, s2 Bytes {enc_headers(c1, d1, s1), enc_headers(c2, d2, s2)} ::
-//@     enc_headers(c1, d1, s1) == enc_headers(c2, d2, s2) ==> c1 == c2 && d1 == d2 && s1 == s2
 
 //@ extern google.golang.org/protobuf/proto.Marshal(m) (data, err)
 //@   ensures err == nil ==> fresh(data)
@@ -110,12 +108,12 @@ package secretstore
 //@ extern (berty.tech/weshnet/v2/pkg/errcode.ErrCode).Wrap(code, inner) (e)
 //@   ensures hascode(e, code)
 //@ extern berty.tech/weshnet/v2/pkg/errcode.Is(err, code) (r)
-//@   ensures (r ==> err != nil) && (err != nil && hascode(err, code) ==> r)
+//@   ensures (r ==> err != nil) && (err != nil && hascode(err, ifaceint(code)) ==> r)
 
 //@ func dsKeyForCurrentChainKey
 //@   for C02, C09, C10
 //@   requires groupPublicKey != nil && devicePublicKey != nil
-//@   ensures [C02.key.chainkey] ret1 == nil ==> ret0.string == k_ck(pkv(groupPublicKey), pkv(devicePublicKey))
+//@   ensures [C02.key.chainkey] ret1 == nil && ret0.string == k_ck(pkv(groupPublicKey), pkv(devicePublicKey))
 
 //@ func dsKeyForPrecomputedMessageKey
 //@   for C02, C10
@@ -138,6 +136,9 @@ package secretstore
 //@     && bytes(ret0.ChainKey) == dck_ck(dsv(s.datastore)[k_ck(pkv(groupPublicKey), pkv(devicePublicKey))])
 //@     && ret0.Counter == dck_ctr(dsv(s.datastore)[k_ck(pkv(groupPublicKey), pkv(devicePublicKey))])
 //@   ensures [C02.get.chainkey.missing] s != nil && !dsh(s.datastore)[k_ck(pkv(groupPublicKey), pkv(devicePublicKey))] ==> ret1 != nil
+//@   ensures [C02.get.chainkey.nil-on-error] ret1 != nil ==> ret0 == nil
+//@   ensures [C02.get.chainkey.complete] s != nil && dsh(s.datastore)[k_ck(pkv(groupPublicKey), pkv(devicePublicKey))]
+//@        && is_dck(dsv(s.datastore)[k_ck(pkv(groupPublicKey), pkv(devicePublicKey))]) ==> ret1 == nil
 
 //@ func (*secretStore).putDeviceChainKey
 //@   for C02, C09, C10
@@ -262,6 +263,7 @@ package secretstore
 //@ extern (*berty.tech/weshnet/v2/pkg/protocoltypes.Group).GetPubKey(m) (pk, err)
 //@   ensures err == nil ==> pk != nil && fresh(pk) && pkv(pk) == bytes(m.PublicKey) && len(m.PublicKey) == 32
 //@   ensures err != nil ==> pk == nil
+//@   ensures len(m.PublicKey) == 32 ==> err == nil
 
 //@ # ----- the ratchet steps (all under the message mutex) -----
 //@ pred ckval(s, g, d) = dck_ck(dsv(s.datastore)[k_ck(g, d)])
@@ -446,3 +448,73 @@ package secretstore
 //@      && sbox_ok(sbox_seal(m, nonce_of(c2), k2), nonce_of(c2), k2) && verify(pubof(sk), sbox_msg(sbox_seal(m, nonce_of(c2), k2), nonce_of(c2), k2), sig)
 //@      ==> c1 == c2
 //@   for C01
+
+//@ # ======================= C02: registration and the window of precomputed keys =======================
+//@ # the sender's ratchet as a function of the number of steps: ckiter(v, g, j) is the chain key after j steps, mkiter(v, g, j) the j-th message key
+//@ spec func ckiter(v Bytes, g Bytes, j Int) Bytes
+//@ spec func mkiter(v Bytes, g Bytes, j Int) Bytes
+//@ axiom ckiter_zero: forall v Bytes, g Bytes {ckiter(v, g, 0)} :: ckiter(v, g, 0) == v
+//@ axiom ckiter_step: forall v Bytes, g Bytes, j {ckiter(v, g, j + 1)} :: j >= 0 ==> ckiter(v, g, j + 1) == kdf_ck(ckiter(v, g, j), bempty, g)
+//@ axiom mkiter_step: forall v Bytes, g Bytes, j {mkiter(v, g, j + 1)} :: j >= 0 ==> mkiter(v, g, j + 1) == kdf_mk(ckiter(v, g, j), bempty, g)
+
+//@ func (*secretStore).getPrecomputedKeyExpectedCount
+//@   for C02
+//@   ensures [C02.window.size] result == ite(s == nil, 0, ite(s.preComputedKeysCount < 0, 0, s.preComputedKeysCount))
+
+//@ func (*secretStore).preComputeKeys
+//@   for C02, C10
+//@   requires s != nil ==> s.datastore != nil && s.logger != nil && locked(addr(s.messageMutex))
+//@   requires devicePublicKey != nil && groupPublicKey != nil && deviceChainKey != nil
+//@   requires s != nil ==> deviceChainKey.Counter + s.preComputedKeysCount < 18446744073709551616
+//@   modifies dsv(s.datastore), dsh(s.datastore)
+//@   ensures [C02.precompute.nonnil] ret1 == nil ==> ret0 != nil && fresh(ret0)
+//@   ensures [C02.precompute.result] ret1 == nil && !old(dsh(s.datastore))[k_ck(pkv(groupPublicKey), pkv(devicePublicKey))] ==> ret0.Counter == deviceChainKey.Counter + ite(s.preComputedKeysCount < 0, 0, s.preComputedKeysCount)
+//@     && bytes(ret0.ChainKey) == ckiter(bytes(deviceChainKey.ChainKey), pkv(groupPublicKey), ite(s.preComputedKeysCount < 0, 0, s.preComputedKeysCount))
+//@   ensures [C02.precompute.window] ret1 == nil && !old(dsh(s.datastore))[k_ck(pkv(groupPublicKey), pkv(devicePublicKey))] ==>
+//@        (forall j {mkiter(bytes(deviceChainKey.ChainKey), pkv(groupPublicKey), j)} :: 1 <= j && j <= s.preComputedKeysCount ==>
+//@            dsh(s.datastore)[k_pre(pkv(groupPublicKey), pkv(devicePublicKey), deviceChainKey.Counter + j)]
+//@         && dsv(s.datastore)[k_pre(pkv(groupPublicKey), pkv(devicePublicKey), deviceChainKey.Counter + j)] == mkiter(bytes(deviceChainKey.ChainKey), pkv(groupPublicKey), j))
+//@   ensures [C02.precompute.frame] s != nil ==> (forall k Bytes {dsh(s.datastore)[k]} ::
+//@        (forall c {k_pre(pkv(groupPublicKey), pkv(devicePublicKey), c)} :: k != k_pre(pkv(groupPublicKey), pkv(devicePublicKey), c))
+//@        ==> dsh(s.datastore)[k] == old(dsh(s.datastore))[k] && dsv(s.datastore)[k] == old(dsv(s.datastore))[k])
+//@   loop 0 invariant 0 <= i && i <= ite(s.preComputedKeysCount < 0, 0, s.preComputedKeysCount) && counter == deviceChainKey.Counter + i
+//@   loop 0 invariant dsh(s.datastore) == old(dsh(s.datastore)) && dsv(s.datastore) == old(dsv(s.datastore))
+//@   loop 0 invariant bytes(chainKeyValue) == ckiter(bytes(deviceChainKey.ChainKey), pkv(groupPublicKey), i)
+//@   loop 0 invariant knownDeviceChainKey != nil ==> old(dsh(s.datastore))[k_ck(pkv(groupPublicKey), pkv(devicePublicKey))]
+//@   loop 0 invariant bytes(groupPublicKeyBytes) == pkv(groupPublicKey) && len(preComputedKeys) <= i
+//@   loop 0 invariant keysWF(preComputedKeys) && (forall a {preComputedKeys[a]} :: 0 <= a && a < len(preComputedKeys) ==>
+//@        deviceChainKey.Counter < preComputedKeys[a].counter && preComputedKeys[a].counter <= deviceChainKey.Counter + i)
+//@   loop 0 invariant forall a, b {preComputedKeys[a], preComputedKeys[b]} :: 0 <= a && a < b && b < len(preComputedKeys) ==> preComputedKeys[a].counter < preComputedKeys[b].counter
+//@   loop 0 invariant !old(dsh(s.datastore))[k_ck(pkv(groupPublicKey), pkv(devicePublicKey))] ==> len(preComputedKeys) == i
+//@        && (forall a {preComputedKeys[a]} :: 0 <= a && a < i ==> preComputedKeys[a].counter == deviceChainKey.Counter + a + 1
+//@              && bytes(preComputedKeys[a].messageKey) == mkiter(bytes(deviceChainKey.ChainKey), pkv(groupPublicKey), a + 1))
+//@   loop 0 decreases ite(s.preComputedKeysCount < 0, 0, s.preComputedKeysCount) - i
+
+//@ spec func k_hint(ref Bytes) Bytes = key2("outOfStoreGroupHint", b64(ref))
+//@ spec func k_flc(g Bytes, d Bytes) Bytes = key3("outOfStoreGroupHintCounters", b64(g), b64(d))
+//@ pred pushKey(k) = keyc1(k) == "outOfStoreGroupHint" || keyc1(k) == "outOfStoreGroupHintCounters"
+
+//@ trusted func (*secretStore).UpdateOutOfStoreGroupReferences
+//@   requires s != nil && unlocked(addr(s.messageMutex))
+//@   modifies dsv(s.datastore), dsh(s.datastore), lockstate(addr(s.messageMutex)), lockgen(addr(s.messageMutex))
+//@   ensures unlocked(addr(s.messageMutex))
+//@   ensures forall k Bytes {dsh(s.datastore)[k]} :: !pushKey(k) ==> dsh(s.datastore)[k] == old(dsh(s.datastore))[k] && dsv(s.datastore)[k] == old(dsv(s.datastore))[k]
+
+//@ func (*secretStore).registerChainKey
+//@   for C02, C10
+//@   requires s != nil ==> s.datastore != nil && s.logger != nil && (isCurrentDeviceChainKey ==> locked(addr(s.messageMutex))) && (!isCurrentDeviceChainKey ==> unlocked(addr(s.messageMutex)))
+//@   requires group != nil && devicePublicKey != nil && deviceChainKey != nil
+//@   requires s != nil ==> deviceChainKey.Counter + s.preComputedKeysCount < 18446744073709551616
+//@   modifies dsv(s.datastore), dsh(s.datastore), lockstate(addr(s.messageMutex)), lockgen(addr(s.messageMutex))
+//@   ensures [C02.register.norewind] s != nil && old(dsh(s.datastore))[k_ck(bytes(group.PublicKey), pkv(devicePublicKey))] && is_dck(old(dsv(s.datastore))[k_ck(bytes(group.PublicKey), pkv(devicePublicKey))])
+//@        && len(group.PublicKey) == 32 ==> ret0 == nil && dsh(s.datastore) == old(dsh(s.datastore)) && dsv(s.datastore) == old(dsv(s.datastore))
+//@   ensures [C02.register.own] ret0 == nil && isCurrentDeviceChainKey && !old(dsh(s.datastore))[k_ck(bytes(group.PublicKey), pkv(devicePublicKey))] ==>
+//@        dsv(s.datastore)[k_ck(bytes(group.PublicKey), pkv(devicePublicKey))] == enc_dck(bytes(deviceChainKey.ChainKey), deviceChainKey.Counter)
+//@   ensures [C02.register.window] ret0 == nil && !isCurrentDeviceChainKey && !old(dsh(s.datastore))[k_ck(bytes(group.PublicKey), pkv(devicePublicKey))] ==>
+//@        dsh(s.datastore)[k_ck(bytes(group.PublicKey), pkv(devicePublicKey))]
+//@     && dsv(s.datastore)[k_ck(bytes(group.PublicKey), pkv(devicePublicKey))] ==
+//@          enc_dck(ckiter(bytes(deviceChainKey.ChainKey), bytes(group.PublicKey), ite(s.preComputedKeysCount < 0, 0, s.preComputedKeysCount)), deviceChainKey.Counter + ite(s.preComputedKeysCount < 0, 0, s.preComputedKeysCount))
+//@     && (forall j {mkiter(bytes(deviceChainKey.ChainKey), bytes(group.PublicKey), j)} :: 1 <= j && j <= s.preComputedKeysCount ==>
+//@            dsh(s.datastore)[k_pre(bytes(group.PublicKey), pkv(devicePublicKey), deviceChainKey.Counter + j)]
+//@         && dsv(s.datastore)[k_pre(bytes(group.PublicKey), pkv(devicePublicKey), deviceChainKey.Counter + j)] == mkiter(bytes(deviceChainKey.ChainKey), bytes(group.PublicKey), j))
+//@   ensures [C02.register.unlock] s != nil ==> lockstate(addr(s.messageMutex)) == old(lockstate(addr(s.messageMutex)))
